@@ -121,9 +121,18 @@ class ConfigTargetVisibility(object):
             is_constant = False
         else:
             # Promptless or target-gated: constant iff everything determining its value is target-constant.
-            is_constant = self._expr_is_target_constant(item.rev_dep) and all(
-                self._expr_is_target_constant(cond) and self._expr_is_target_constant(value)
-                for value, cond in item.defaults
+            is_constant = (
+                self._expr_is_target_constant(item.rev_dep)
+                and self._expr_is_target_constant(item.weak_rev_dep)
+                and all(
+                    self._expr_is_target_constant(cond) and self._expr_is_target_constant(value)
+                    for value, cond in item.defaults
+                )
+                # values forced or proposed by other symbols ('set' / 'set default')
+                and all(
+                    self._expr_is_target_constant(cond) and self._expr_is_target_constant(value)
+                    for value, cond, _ in item.rev_values + item.weak_rev_values
+                )
             )
 
         self._constants_cache[item.name] = is_constant
